@@ -188,6 +188,23 @@ def seeded_file(rng):
     return units
 
 
+def _u(kind, name, children=(), calls=()):
+    return {'kind': kind, 'name': name, 'imports': [], 'typedefs': [], 'interfaces': [],
+            'calls': [{'name': c, 'inl': False} for c in calls], 'children': list(children)}
+
+
+# shapes that found defects before (always part of the run so that their keys are stable)
+FIXED_FILES = [
+    # a module procedure with an internal procedure, followed by a second module
+    [_u('module', 'fm1', [_u('subroutine', 'fs1', [_u('subroutine', 'finner')], calls=['ca'])]),
+     _u('module', 'fm2', [_u('subroutine', 'fs2', calls=['cb'])])],
+    # the same with a stand-alone routine in front and a function with an internal function
+    [_u('function', 'ff0', [_u('function', 'ffinner')]),
+     _u('module', 'fm3', [_u('function', 'ff1', [_u('subroutine', 'finner2')])]),
+     _u('subroutine', 'fs3', calls=['ca'])],
+]
+
+
 def file_size(f):
     return len(json.dumps(f))
 
@@ -256,10 +273,10 @@ def run(ctx):
             raise MachineryError(f'Gen_RegexDiscovery printed {len(universe)} files\n{r.tail()}')
         ctx.cover['universe_files'] = len(universe)
         rng = ctx.rng
-        nsmall, nseeded = (18, 6) if quick else (300, 120)
-        files = [seeded_file(rng) for _ in range(nseeded)] + rng.sample(universe, nsmall)
-        norders = 60 if quick else 200
-        nfull = 10 if quick else len(files)
+        nsmall, nseeded = (16, 6) if quick else (120, 50)
+        files = FIXED_FILES + [seeded_file(rng) for _ in range(nseeded)] + rng.sample(universe, nsmall)
+        norders = 60 if quick else 120
+        nfull = 8 if quick else len(files)
         for g, f in enumerate(files):
             seed = rng.randrange(1 << 30)
             jobs.append({'file': f, 'knobs': [], 'seed': seed, 'group': g, 'layout': 'plain',
@@ -311,24 +328,30 @@ def run(ctx):
         details = []
         for k in range(1, ndet + 1):
             direct, cl, o = verdicts[f'{i}#{k}'][:3]
-            details.append((cl, direct, verdicts[f'{i}#{k}#P'][1], o))
+            details.append((cl, direct, verdicts[f'{i}#{k}#P'][1], o, verdicts[f'{i}#{k}#P'][2]))
         if clause.startswith('oracle:'):
             raise MachineryError(f'C19 oracle disagreement ({clause}) for knobs={job["knobs"]} seed={job["seed"]}:\n'
                                  f'{results[i][1]}\nfp={json.dumps(cases[i]["fp"])}\nfile={json.dumps(job["file"])}')
-        for cl, direct, pstr, o in details:
-            failing.setdefault((job['group'], cl, bool(direct)), {})[frozenset(job['knobs'])] = (i, pstr, o)
+        for cl, direct, pstr, o, start in details:
+            failing.setdefault((job['group'], cl, bool(direct), start), {})[frozenset(job['knobs'])] = (i, pstr, o)
     reported = set()
-    for (g, cl, direct), by_knobs in sorted(failing.items(), key=lambda kv: (kv[0][1], kv[0][2], kv[0][0])):
+    for (g, cl, direct, start), by_knobs in sorted(failing.items(), key=lambda kv: (kv[0][1], kv[0][2], kv[0][3], kv[0][0])):
         for knobs, (i, pstr, o) in sorted(by_knobs.items(), key=lambda kv: (len(kv[0]), sorted(kv[0]))):
             # attribute the failure to the smallest sub-layout of the same file that fails the same clause
+            # (a layout whose failure is explained by a sub-layout is not reported again)
             if frozenset() in by_knobs:
+                if knobs:
+                    continue
                 attr = 'plain'
             else:
                 singles = sorted(k for k in knobs if frozenset([k]) in by_knobs)
-                attr = '+'.join(singles) if singles else '+'.join(sorted(knobs))
+                if singles and len(knobs) > 1:
+                    continue
+                attr = '+'.join(sorted(knobs))
             obs = cases[i]['obs'][o - 1]
             exc = obs[0]['name'] if obs and obs[0]['kind'] == '<exception>' else None
-            key = f"{cl}:{'direct' if direct else 'incremental-only'}:layout={attr}" + (f':exception={exc}' if exc else '')
+            how = '' if cl == 'order-dependence' else (':direct' if direct else ':incremental-only')
+            key = f"{cl}{how}:start={start}:layout={attr}" + (f':exception={exc}' if exc else '')
             job = jobs[i]
             if key not in reported:
                 legal, err = gfortran_accepts(ctx, results[i][1], len(reported))
@@ -336,7 +359,17 @@ def run(ctx):
                     raise MachineryError(f'renderer produced Fortran that gfortran rejects (knobs={job["knobs"]}):\n'
                                          f'{results[i][1]}\n{err}')
                 reported.add(key)
-            hist = next((h for h in cases[i]['hists'] if any(s['o'] == o for s in h)), cases[i]['hists'][0])
+            def exhibits(h):
+                seen = set()
+                for st in h:
+                    seen |= set(st['req'])
+                    if st['o'] == o and ''.join(L.CLASS_LETTER[c] for c in FLAGS if c in seen) == pstr:
+                        return True
+                return False
+            want_unit = {'unit': True, 'nounit': False}.get(start)
+            cands = [h for h in cases[i]['hists'] if exhibits(h)
+                     and (want_unit is None or ('ProgramUnit' in h[0]['req']) == want_unit)]
+            hist = min(cands, key=len) if cands else cases[i]['hists'][0]
             ctx.violation(key, f'REGEX frontend observation rejected by clause {cl} with parsed={pstr} '
                                f'(layout knobs {sorted(knobs)}); observed {json.dumps(obs)[:400]}',
                           {'file': job['file'], 'knobs': job['knobs'], 'seed': job['seed'],
@@ -351,6 +384,7 @@ def run(ctx):
                 o = c['obs'][s['o'] - 1]
                 if 'Import' not in seen and any(u['imports'] for u in o):
                     unrequested += 1
+    ctx.cover['violation_keys'] = sorted({v.key for v in ctx.violations})
     ctx.cover['steps_revealing_unrequested_imports'] = unrequested
     ctx.cover['distinct_observations'] = sum(len(c['obs']) for c in cases)
     ctx.cover['distinct_files'] = len({json.dumps(j['file'], sort_keys=True) for j in jobs})
